@@ -23,8 +23,11 @@
     quotient ring under the hypothesis `hsum`).
   * `upoly_notation_generic`, `prime_/bin_/ext_upoly_notation` — `UNotations`: univariate round
     trip in every notation.
-  Still only stated (`C15.C15_full`, and `C15Full_remaining` below): the bivariate notational
-  variations, bivariate additivity in quotient rings without `hsum`.
+  * `C15_full_literal_false` — `C15_full` read literally is FALSE in the model (no bound on the
+    number of coefficients: `X^(2^63)` prints an exponent `strconv.ParseInt` rejects); the bounded
+    statement is assembled as `C15_full_bounded_partial` in `Props/C15FullDefine.lean`.
+  Still only stated (`C15Full_remaining` below): the bivariate notational variations, bivariate
+  additivity in quotient rings without `hsum`.
 -/
 import Algobra.Props.C15
 import Algobra.Props.C03
@@ -1142,7 +1145,155 @@ example : ∃ g, UPoly.parse { F := primeOps 7, varName := "X", modulus := none 
       [5, 1, 3] = "3*x2+x+5" := by decide +kernel
   rwa [e] at h
 
-/-! ### 10. what remains of `C15_full` -/
+/-! ### 10. the literal `C15_full` is false: the missing bound on the number of coefficients
+
+  `UPolyRoundTrip` of `Props/C15.lean` quantifies over all canonical coefficient slices.  The
+  monomial `X^(2^63)` over `F_7` (a slice of `2^63 + 1` coefficients) prints as
+  `X^9223372036854775808`, and the exponent reader (`strconv.ParseInt(·, 10, 0)`) rejects
+  `9223372036854775808` with a range error: the parser returns a Conversion error.  Hence the
+  statement without `f.length ≤ 2^63` is false in the model.  (In Go such a slice cannot exist —
+  its length exceeds `int` — so this is a defect of the literal statement, not of the library;
+  `UPolyRoundTripB` carries the bound.) -/
+
+theorem getD_monomial (n d : Nat) : (List.replicate n 0 ++ [1]).getD d 0 ≠ 0 ↔ d = n := by
+  rw [List.getD_eq_getElem?_getD, List.getElem?_append]
+  by_cases h1 : d < n
+  · simp [h1, List.getElem?_replicate]; omega
+  · by_cases h2 : d = n
+    · subst h2; simp
+    · have : d - n ≠ 0 := by omega
+      simp [h1]
+      constructor
+      · intro h
+        cases hd : d - n with
+        | zero => omega
+        | succ k => rw [hd] at h; simp at h
+      · intro h; omega
+
+theorem degrees_monomial (p n : Nat) :
+    UPoly.degrees (primeOps p) (List.replicate n 0 ++ [1]) = [n] := by
+  have hall : ∀ d ∈ UPoly.degrees (primeOps p) (List.replicate n 0 ++ [1]), d = n :=
+    fun d hd => (getD_monomial n d).1 ((Strings.mem_degrees p _ d).1 hd)
+  have hmem : n ∈ UPoly.degrees (primeOps p) (List.replicate n 0 ++ [1]) :=
+    (Strings.mem_degrees p _ n).2 ((getD_monomial n n).2 rfl)
+  have hpw := UPoly.degrees_sorted (F := primeOps p) (List.replicate n 0 ++ [1])
+  cases h : UPoly.degrees (primeOps p) (List.replicate n 0 ++ [1]) with
+  | nil => rw [h] at hmem; cases hmem
+  | cons x t =>
+    rw [h] at hall hpw
+    cases t with
+    | nil => rw [hall x (by simp)]
+    | cons y t' =>
+      exfalso
+      have h1 := hall x (by simp)
+      have h2 := hall y (by simp)
+      have := (List.pairwise_cons.1 hpw).1 y (by simp)
+      omega
+
+theorem toStr_monomial (p : Nat) (v : String) {n : Nat} (hn : 2 ≤ n) :
+    UPoly.toStr (primeOps p) v (List.replicate n 0 ++ [1]) = v ++ "^" ++ toString n := by
+  have hz : UPoly.isZero (primeOps p) (List.replicate n 0 ++ [1]) = false := by
+    obtain ⟨k, rfl⟩ : ∃ k, n = k + 1 := ⟨n - 1, by omega⟩
+    simp [List.replicate_succ, UPoly.isZero]
+  have hc : UPoly.coef (primeOps p) (List.replicate n 0 ++ [1]) n = 1 := by
+    show (List.replicate n 0 ++ [1]).getD n 0 = 1
+    rw [List.getD_eq_getElem?_getD, List.getElem?_append]; simp
+  rw [toStr_eq_terms, hz, degrees_monomial]
+  simp only [Bool.false_eq_true, if_false, List.map_cons, List.map_nil, hc]
+  have h0 : ¬ n = 0 := by omega
+  have h1 : ¬ n = 1 := by omega
+  have h2 : n > 1 := by omega
+  simp [termStr, primeOps, h0, h1, h2]
+
+/-- the parser rejects the printed form of `X^n` for every `n ≥ 2^63` -/
+theorem parse_monomial_overflow {n : Nat} (hn : 2 ^ 63 ≤ n) :
+    UPoly.parse { F := primeOps 7, varName := "X", modulus := none }
+      (UPoly.toStr (primeOps 7) "X" (List.replicate n 0 ++ [1])) = .error .conversion := by
+  have H := prime_coefRT (p := 7) (by norm_num) (by norm_num)
+  have hdir : UPoly.directOK (primeOps 7) "X" = true := by decide
+  have h63 : (2 : Nat) ^ 63 = 9223372036854775808 := by norm_num
+  have hpos : n ≠ 0 := by omega
+  have hn1 : ¬ n = 1 := by omega
+  have hn2 : n > 1 := by omega
+  have hterm : (UPoly.toStr (primeOps 7) "X" (List.replicate n 0 ++ [1])).toList =
+      [] ++ (termChars (primeOps 7) "X" 1 n ++ []) := by
+    rw [toStr_monomial 7 "X" (by omega), ← termStr_toList]
+    simp [termStr, primeOps, hpos, hn1, hn2]
+  obtain ⟨full, htok⟩ := tokU_term (F := primeOps 7) (v := "X") (x0 := 'X') (vt := []) H rfl
+    (by decide) (fun w X hw => by cases hw) (pre := []) (Or.inl rfl) (c := 1)
+    (by show (1 : Nat) < 7; norm_num) n (post := []) (Or.inl rfl)
+  have hcoef : coefPart (primeOps 7) 1 n = [] := by
+    unfold coefPart; simp [primeOps, hpos]
+  have hmap : UPoly.stringToMap (primeOps 7) "X"
+      (UPoly.toStr (primeOps 7) "X" (List.replicate n 0 ++ [1])) = .error .conversion := by
+    unfold UPoly.stringToMap
+    rw [if_pos hdir]
+    unfold matchesU
+    rw [hterm]
+    have hne : ([] ++ (termChars (primeOps 7) "X" 1 n ++ [])).isEmpty = false := by
+      obtain ⟨y, t, hT, _⟩ := termChars_head (F := primeOps 7) (v := "X") (x0 := 'X') (vt := []) H
+        rfl (by decide) (c := 1) (by show (1 : Nat) < 7; norm_num) n []
+      rw [List.nil_append, hT]; rfl
+    rw [hne]
+    simp only [Bool.false_eq_true, if_false]
+    have hov : Option.map String.toList (primeOps 7).ownVar = ovOf (primeOps 7) := rfl
+    rw [hov]
+    cases hlen : ([] ++ (termChars (primeOps 7) "X" 1 n ++ [])).length with
+    | zero =>
+      rw [List.isEmpty_eq_false_iff] at hne
+      exact absurd (List.length_eq_zero_iff.1 hlen) hne
+    | succ f =>
+      rw [loopU, hne, htok]
+      simp only [Bool.false_eq_true, if_false, dropWs, List.dropWhile_nil, List.length_nil,
+        if_true]
+      rw [loopU_nil]
+      simp only [Option.map_some]
+      unfold UPoly.stringToMapRx.go
+      have hpi : parseIntDigits n.repr = none := by
+        have : parseIntDigits (toString n) = none := by
+          rw [parseIntDigits_eq, if_pos (isDigits_toString _), toNat!_toString, if_neg (by omega)]
+        exact this
+      have hne2 : n.repr ≠ "" := toString_ne_empty n
+      have hl : UPoly.strLower "X" ≠ "" := by decide
+      have hle : ¬ n ≤ 1 := by omega
+      have hT : 0 < (termChars (primeOps 7) "X" 1 n).length := by
+        have : (termChars (primeOps 7) "X" 1 n).length = f + 1 := by simpa using hlen
+        omega
+      simp [hcoef, hpos, hpi, hne2, hl, hle, hT]
+  unfold UPoly.parse
+  rw [hmap]
+
+/-- `UPolyRoundTrip` as literally stated (no bound on the number of coefficients) fails -/
+theorem upolyRoundTrip_literal_false : ¬ UPolyRoundTrip (primeSpec 7) := by
+  intro h
+  obtain ⟨h1, _⟩ := h "X" none ⟨'X', [], by decide, by decide, by decide⟩ (fun w hw => by cases hw)
+    (fun g hg => by cases hg)
+  have key : ∀ n : Nat, 2 ^ 63 ≤ n → False := by
+    intro n hn
+    have hvalid : UValid (primeSpec 7) { F := primeOps 7, varName := "X", modulus := none }
+        (List.replicate n 0 ++ [1]) := by
+      refine ⟨⟨by simp, fun _ => by simp [primeOps, primeSpec]⟩, ?_, rfl⟩
+      intro c hc
+      show c < 7
+      rcases List.mem_append.1 hc with h | h
+      · rw [(List.mem_replicate.1 h).2]; norm_num
+      · simp at h; omega
+    obtain ⟨g, hg, _⟩ := h1 _ hvalid {} ⟨1, 1, by decide⟩
+    rw [uToStrN_default] at hg
+    have hov := parse_monomial_overflow hn
+    change UPoly.parse { F := primeOps 7, varName := "X", modulus := none }
+      (UPoly.toStr (primeOps 7) "X" (List.replicate n 0 ++ [1])) = .ok (some g) at hg
+    rw [hov] at hg
+    cases hg
+  exact key (2 ^ 63) (Nat.le_refl _)
+
+/-- hence `C15_full` of `Props/C15.lean`, read literally, is false; the provable statement is the
+    bounded one (`UPolyRoundTripB`; assembled in `Props/C15FullDefine.lean`) -/
+theorem C15_full_literal_false : ¬ C15_full := by
+  intro h
+  exact upolyRoundTrip_literal_false (h.1 7 (by decide +kernel)).2.1
+
+/-! ### 11. what remains of `C15_full` -/
 
 /-- `UPolyRoundTrip` of `Props/C15.lean` with the bound on the number of coefficients that the
     exponent reader (`strconv.ParseInt`) imposes: an exponent `≥ 2^63` is a range error, so without
